@@ -79,6 +79,54 @@ def run_plan(x, wd):
     return rec
 
 
+def run_plan_shared(x, wd):
+    """one planner instance plans two observations whose pipelines use the
+    same workflow file; the first plan is inspected after the second one was
+    generated (plans must not share mutable state)"""
+    import simpy
+    from topsim.core.planner import Planner
+    from topsim.core.instrument import Observation
+    from topsim.user.plan.batch_planning import BatchPlanning
+
+    nodes = []
+    for k in range(x["n"]):
+        d = {"id": k, "comp": k + 1}
+        if x["dv"] == "all" or (x["dv"] == "odd" and k % 2 == 1):
+            d["task_data"] = 2
+        nodes.append(d)
+    g = {"directed": True, "multigraph": False, "graph": {}, "nodes": nodes,
+         "edges": [{"source": e["u"], "target": e["v"], "transfer_data": e["u"] + 2 * e["v"]} for e in x["edges"]]}
+    p = os.path.join(wd, "wf_shared_%d.json" % (abs(hash(json.dumps(x, sort_keys=True))) % 10 ** 9))
+    with open(p, "w") as f:
+        json.dump({"header": {}, "graph": g}, f)
+
+    class Buf:
+        def buffer_storage_summary(self):
+            return {"hotbuffer": {"capacity": 10, "data_rate": 1}, "coldbuffer": {"capacity": 10, "data_rate": 1}}
+    env = simpy.Environment(initial_time=x["clock"])
+    planner = Planner(env, None, BatchPlanning('batch'), None)
+    x2 = dict(x, name="zz")
+    recs = [{"x": x, "raised": "", "y": {"tasks": [], "edges": []}}, {"x": x2, "raised": "", "y": {"tasks": [], "edges": []}}]
+
+    def view(plan):
+        tasks = []
+        for t in plan.tasks:
+            tasks.append({"id": str(t.id), "gid": int(t.graph_id), "flops": int(t.flops), "data": int(t.task_data),
+                          "pred": [str(p_) for p_ in t.pred],
+                          "io": [{"p": str(a), "v": int(b)} for a, b in (t.io or {}).items()],
+                          "qpred": [str(q.id) for q in plan.get_task_predecessors(t)],
+                          "qsucc": [str(q.id) for q in plan.get_task_successors(t)]})
+        return {"tasks": tasks, "edges": [{"u": str(a.id), "v": str(b.id)} for a, b in plan.graph.edges()]}
+    try:
+        p1 = planner.run(Observation(x["name"], 0, 2, 1, p, 1), Buf(), None)
+        p2 = planner.run(Observation("zz", 0, 2, 1, p, 1), Buf(), None)
+        recs[1]["y"] = view(p2)
+        recs[0]["y"] = view(p1)
+    except Exception as e:  # noqa
+        recs[0]["raised"] = recs[1]["raised"] = type(e).__name__
+    return recs
+
+
 # ------------------------------------------------------------------ C16
 def config_inputs():
     out = []
@@ -217,8 +265,12 @@ def build(tier, seed, which=("plan", "config", "delay", "runtime")):
     try:
         with contextlib.redirect_stdout(io.StringIO()), contextlib.redirect_stderr(io.StringIO()):
             if "plan" in which:
-                for x in plan_inputs(True, rng, 40 if tier == "quick" else 600):
+                inputs = plan_inputs(True, rng, 40 if tier == "quick" else 600)
+                for x in inputs:
                     data["plan"].append(run_plan(x, wd))
+                for x in inputs:
+                    if x["n"] <= 3 and x["name"] == "a" and x["clock"] == 7:
+                        data["plan"] += run_plan_shared(x, wd)
             if "config" in which:
                 for x in config_inputs():
                     data["config"].append(run_config(x, wd))
